@@ -35,16 +35,29 @@ namespace KotoVerif.Modules
 /-- identifiers: module names, export keys and local variables share one namespace, as in Koto -/
 abbrev Name := Nat
 
-/-- canonical path of a module file, relative to the root of the (finite) file system:
-`dir/name.koto` (`isDir = false`) or `dir/name/main.koto` (`isDir = true`) -/
+/-- path of a module file, relative to the root of the (finite) file system, as the loader spells it:
+`dir/name.koto` (`isDir = false`) or `dir/name/main.koto` (`isDir = true`); a directory segment is a
+name or `..` (`none`). `.` segments do not occur (Rust's `Path` equality ignores them). Paths are the
+keys of the loader cache and of the module cache; the file system is asked at normalised paths. -/
 structure Path where
-  dir : List Name
+  dir : List (Option Name)
   name : Name
   isDir : Bool
   deriving DecidableEq, Repr, Inhabited
 
-/-- the directory that contains the file — imports made by code of this file are resolved here -/
-def Path.folder (p : Path) : List Name := if p.isDir then p.dir ++ [p.name] else p.dir
+/-- `x/..` collapsed, left to right (`..` at the root stays at the root) -/
+def normSegs : List (Option Name) → List Name → List Name
+  | [], acc => acc.reverse
+  | some n :: rest, acc => normSegs rest (n :: acc)
+  | none :: rest, acc => normSegs rest acc.tail
+
+/-- the canonical spelling (what `canonicalize` returns; no symlinks) -/
+def Path.norm (p : Path) : Path := { p with dir := (normSegs p.dir []).map some }
+
+/-- the directory that contains the file — imports made by code of this file are resolved here
+(`find_module` canonicalises the current script path first) -/
+def Path.folder (p : Path) : List Name :=
+  if p.isDir then normSegs p.dir [] ++ [p.name] else normSegs p.dir []
 
 /-- runtime values that occur in the modelled fragment. A module's exports map is referred to by the
 path of the module (`mref`): a module has at most one completed exports map per runtime
@@ -68,19 +81,33 @@ inductive Err where
   | exportEntry   -- "expected Key/Value pair to export" (export_top_level_ids + `from x import *` on a number)
   deriving DecidableEq, Repr, Inhabited
 
-/-- `name` or `name as alias` -/
-structure Item where
+/-- what an import statement names: an id (`name`), or a string (`str`) that may carry leading path
+segments (`'../lib/name'` → `segs = [none, some lib]`) -/
+structure Ref where
   name : Name
+  str : Bool := false
+  segs : List (Option Name) := []
+  deriving DecidableEq, Repr, Inhabited
+
+/-- `name`, `name as alias`, `'name'`, `'name' as alias` -/
+structure Item extends Ref where
   as_ : Option Name
   deriving DecidableEq, Repr, Inhabited
 
-/-- the local that the item binds -/
+/-- the local that the item binds (when it binds one) -/
 def Item.target (i : Item) : Name := i.as_.getD i.name
 
-/-- the key under which export_top_level_ids exports an imported item: the code as it is uses the
-name of the imported item even when the statement binds an alias (finding F-C18-1, `alias = false`);
-with the proposed repair the alias is used (`alias = true`) -/
-def Item.exportKey (alias : Bool) (i : Item) : Name := if alias then i.target else i.name
+/-- string items bind a local only through `as` -/
+def Item.binds (i : Item) : Bool := !(i.str && i.as_.isNone)
+
+/-- the key under which export_top_level_ids exports an imported item. Id items: the code as recorded
+in finding F-C18-1 used the name of the imported item even when the statement binds an alias
+(`alias = false`); repaired: the alias (`alias = true`). String items: the code as it is exports
+nothing, so `'x' as y` is lost for the next chunk (finding F-C18-5, `strAlias = false`); with the
+proposed repair the alias is exported (`strAlias = true`). -/
+def Item.exportKey? (alias strAlias : Bool) (i : Item) : Option Name :=
+  if i.str then (if strAlias then i.as_ else none)
+  else some (if alias then i.target else i.name)
 
 /-- an entry of a map pattern: `key` (binds `key`), `key as n` (binds `n`; the key may also be written
 as a string), `key as _` (binds nothing) -/
@@ -119,9 +146,9 @@ inductive Act where
   | exportId (k : Name) (src : Name)           -- `export k = src`
   | show (mk : Nat) (k : Name)                 -- `print "S<mk>={k}"`
   | importMods (items : List Item)             -- `import a, b as c`
-  | fromImport (m : Name) (items : List Item)  -- `from m import a, b as c`
-  | fromAll (m : Name)                         -- `from m import *`
-  | tryImport (m : Name) (mk : Nat)            -- `try` / `import 'm'` / `catch e` / `print 'C<mk>:<class>'`
+  | fromImport (m : Ref) (items : List Item)   -- `from m import a, b as c`
+  | fromAll (m : Ref)                          -- `from m import *`
+  | tryImport (m : Ref) (mk : Nat)             -- `try` / `import 'm'` / `catch e` / `print 'C<mk>:<class>'`
   | fail (mk : Nat)                            -- `throw 'boom<mk>'`
   /-- `[export] t1, t2, … = r1, r2, …` — (multi-)assignment with any target shapes -/
   | assignPat (exp : Bool) (targets : List Target) (rhs : List Rhs)
@@ -188,7 +215,14 @@ structure Cfg where
   runImportTests : Bool                      -- KotoVmSettings::run_import_tests
   hostTests : Bool                           -- KotoSettings::run_tests
   prelude : Name → Option V := fun _ => none
-  exportAlias : Bool := false                -- see `Item.exportKey`
+  exportAlias : Bool := false                -- see `Item.exportKey?`
+  exportStrAlias : Bool := false             -- see `Item.exportKey?`
+  /-- `find_module` canonicalises the `name.koto` branch too (repair of finding F-C18-3); as it is, only
+  the `name/main.koto` branch is canonicalised, so one file can have several cache keys -/
+  canonFile : Bool := false
+  /-- what `Path::with_extension("koto")` keeps of a module name: a dotted suffix is dropped
+  (`'utils.v2'` → `utils`, finding F-C18-4); identity for undotted names and after the repair -/
+  stem : Name → Name := id
 
 /-- execution frame: where imports resolve, locals, wildcard imports, and whether top-level
 assignments are exported (`export_top_level_ids`, host script top level only) -/
@@ -246,24 +280,35 @@ def addWild (v : V) (fr : Frame) : Frame :=
 
 /-! ### module resolution and `run_import` -/
 
-/-- `find_module`: `name.koto` first, then `name/main.koto`, in the importing file's directory -/
-def findModule (fs : FS) (dir : List Name) (name : Name) : Option Path :=
-  if (fs ⟨dir, name, false⟩).isSome then some ⟨dir, name, false⟩
-  else if (fs ⟨dir, name, true⟩).isSome then some ⟨dir, name, true⟩
+/-- `find_module`: `name.koto` first, then `name/main.koto`, in the importing file's directory
+(extended by the path segments of a string import). The file system is asked at the normalised path;
+the returned cache key is normalised only in the `main.koto` branch (and in the file branch when
+`cfg.canonFile`). -/
+def findModule (cfg : Cfg) (fs : FS) (dir : List Name) (r : Ref) : Option Path :=
+  let raw := dir.map some ++ r.segs
+  let fileKey : Path := ⟨raw, cfg.stem r.name, false⟩
+  let dirKey : Path := ⟨raw, r.name, true⟩
+  if (fs fileKey.norm).isSome then some (if cfg.canonFile then fileKey.norm else fileKey)
+  else if (fs dirKey.norm).isSome then some dirKey.norm
   else none
+
+/-- the non-local / prelude hit of `run_import`: the whole import string is looked up, so a string
+with path segments never hits -/
+def importHit (cfg : Cfg) (fr : Frame) (st : St) (r : Ref) : Option V :=
+  if r.segs.isEmpty then nonLocal cfg fr st r.name else none
 
 /-- runs a module unit (top level → tests → @main) in the given directory; `none` = out of fuel -/
 abbrev Runner := List Name → List TAct → St → Option (Option Err × St)
 
 def bodyOf (fs : FS) (p : Path) : List TAct :=
-  match fs p with
+  match fs p.norm with
   | some (.ok b) => b
   | _ => []
 
 /-- `ModuleLoader::compile_module` after `find_module`: `(loaded_from_cache, state)` or a compile error -/
 def compileModule (fs : FS) (p : Path) (st : St) : Option (Bool × St) :=
   if st.loader p then some (true, st)
-  else match fs p with
+  else match fs p.norm with
     | some (.ok _) => some (false, { st with loader := upd st.loader p true })
     | _ => none
 
@@ -285,12 +330,12 @@ def loadModule (fs : FS) (rec : Runner) (p : Path) (st1 : St) : Option (Except E
 /-- `run_import` for an import name: non-local / prelude hit first; then resolve and compile; a
 placeholder in the module cache means a recursive import; cached exports are returned when the chunk
 came from the loader's cache; otherwise the module is executed. -/
-def runImport (cfg : Cfg) (fs : FS) (rec : Runner) (fr : Frame) (name : Name) (st : St) :
+def runImport (cfg : Cfg) (fs : FS) (rec : Runner) (fr : Frame) (name : Ref) (st : St) :
     Option (Except Err V × St) :=
-  match nonLocal cfg fr st name with
+  match importHit cfg fr st name with
   | some v => some (.ok v, st)
   | none =>
-    match findModule fs fr.dir name with
+    match findModule cfg fs fr.dir name with
     | none => some (.error .notFound, st)
     | some p =>
       match compileModule fs p st with
@@ -316,9 +361,9 @@ def importValue : V → Except Err V
 
 /-- the value an `import m` / `from m` root denotes: a local (compile-time decision of
 `compile_import_item`) or the result of `run_import` -/
-def importRoot (cfg : Cfg) (fs : FS) (rec : Runner) (fr : Frame) (m : Name) (st : St) :
+def importRoot (cfg : Cfg) (fs : FS) (rec : Runner) (fr : Frame) (m : Ref) (st : St) :
     Option (Except Err V × St) :=
-  match lookup m fr.locals with
+  match (if m.str then none else lookup m.name fr.locals) with
   | some v => some (.ok v, st)
   | none => runImport cfg fs rec fr m st
 
@@ -330,26 +375,35 @@ def access (cache : Path → Option Entry) (v : V) (k : Name) : Except Err V :=
 
 def exportIf (b : Bool) (k : Name) (v : V) (st : St) : St := if b then setData k v st else st
 
+/-- the local binding made by an import item -/
+def bindItem (it : Item) (v : V) (fr : Frame) : Frame := if it.binds then bind it.target v fr else fr
+
+/-- what export_top_level_ids exports for an import item -/
+def exportItem (b alias strAlias : Bool) (it : Item) (v : V) (st : St) : St :=
+  match it.exportKey? alias strAlias with
+  | some k => exportIf b k v st
+  | none => st
+
 /-- `import a, b as c`: each item in turn -/
 def importItems (cfg : Cfg) (fs : FS) (rec : Runner) :
     List Item → Frame → St → Option (Option Err × Frame × St)
   | [], fr, st => some (none, fr, st)
   | it :: rest, fr, st =>
-    match importRoot cfg fs rec fr it.name st with
+    match importRoot cfg fs rec fr it.toRef st with
     | none => none
     | some (.error e, st1) => some (some e, fr, st1)
     | some (.ok v, st1) =>
-      -- with export_top_level_ids the value is exported under the *imported* id, not the alias
-      importItems cfg fs rec rest (bind it.target v fr)
-        (exportIf fr.exportTop (it.exportKey cfg.exportAlias) v st1)
+      importItems cfg fs rec rest (bindItem it v fr)
+        (exportItem fr.exportTop cfg.exportAlias cfg.exportStrAlias it v st1)
 
 /-- `from m import a, b as c`: each item accessed on the module value in turn -/
-def fromItems (alias : Bool) (mv : V) : List Item → Frame → St → Option Err × Frame × St
+def fromItems (alias strAlias : Bool) (mv : V) : List Item → Frame → St → Option Err × Frame × St
   | [], fr, st => (none, fr, st)
   | it :: rest, fr, st =>
     match access st.cache mv it.name with
     | .error e => (some e, fr, st)
-    | .ok v => fromItems alias mv rest (bind it.target v fr) (exportIf fr.exportTop (it.exportKey alias) v st)
+    | .ok v =>
+      fromItems alias strAlias mv rest (bindItem it v fr) (exportItem fr.exportTop alias strAlias it v st)
 
 /-- `compile_export_iterable` on a map: every entry is exported in order -/
 def exportAll : List (Name × V) → St → St
@@ -410,9 +464,9 @@ def execAct (cfg : Cfg) (fs : FS) (rec : Runner) (a : Act) (fr : Frame) (st : St
     match importRoot cfg fs rec fr m st with
     | none => none
     | some (.error e, st1) => some (some e, fr, st1)
-    | some (.ok mv, st1) => some (fromItems cfg.exportAlias mv items fr st1)
+    | some (.ok mv, st1) => some (fromItems cfg.exportAlias cfg.exportStrAlias mv items fr st1)
   | .fromAll m =>
-    let r := match lookup m fr.locals with
+    let r := match (if m.str then none else lookup m.name fr.locals) with
       | some v => some (importValue v, st)
       | none => runImport cfg fs rec fr m st
     match r with
@@ -459,8 +513,8 @@ def Act.binds : Act → List Name
   | .export_ k _ => [k]
   | .assign k _ => [k]
   | .exportId k _ => [k]
-  | .importMods items => items.map Item.target
-  | .fromImport _ items => items.map Item.target
+  | .importMods items => (items.filter Item.binds).map Item.target
+  | .fromImport _ items => (items.filter Item.binds).map Item.target
   | .assignPat _ targets _ => boundIds targets
   | _ => []
 
